@@ -81,7 +81,39 @@ def sharedHandler : Handler SS where
         [s!"prop shared=FAIL sig=C11/sharedcomponent/ring-overflow-after-sticky sources={srcs}"]
       else [s!"prop shared=FAIL sig=C11/sharedcomponent/divergence-within-ring sources={srcs}"]
 
+def parseCSV (s : String) : Option (List St) :=
+  if s = "-" then some [] else (s.splitOn ",").mapM (fun t => t.toNat?.bind St.ofNat?)
+
+def showCSV (l : List St) : String := if l.isEmpty then "-" else ",".intercalate (l.map (fun s => toString s.toNat))
+
+/-- `c11-life`: per component instance, the events predicted from its life script; the implementation's
+event list is additionally judged by the table-independent `docPathB` -/
+def lifeHandler : Handler (List String) where
+  init := []
+  onOp := fun s toks =>
+    match toks with
+    | "life" :: rest =>
+      match kv rest "name", kvNat rest "started", (kv rest "ds").bind parseCSV, kvNat rest "fs", kvNat rest "allok",
+            (kv rest "run").bind parseCSV, (kv rest "dstop").bind parseCSV, kvNat rest "fstop" with
+      | some name, some st, some ds, some fs, some allok, some rn, some dstop, some fstop =>
+        let l : Life := ⟨st = 1, ds, fs = 1, allok = 1, rn, dstop, fstop = 1⟩
+        (s, [s!"obs events {name} {showCSV l.events}"])
+      | _, _, _, _, _, _, _, _ => (s, ["obs bad-op"])
+    | _ => (s, ["obs bad-op"])
+  onObs := fun s toks =>
+    match toks with
+    | [_, "events", name, csv] =>
+      match parseCSV csv with
+      | some evs => if docPathB .none evs then s else s ++ [s!"sig=C11/graph/violates-documented-machine instance={name} events={csv}"]
+      | Option.none => s ++ [s!"sig=C11/graph/unparsable {name}"]
+    | _ => s
+  onEnd := fun s =>
+    match s with
+    | [] => ["prop path=ok"]
+    | f :: _ => [s!"prop path=FAIL {f}"]
+
 end OtelVerif.Drivers.C11
 
 def main : IO UInt32 :=
-  runMulti [("c11-reporter", run OtelVerif.Drivers.C11.repHandler), ("c11-shared", run OtelVerif.Drivers.C11.sharedHandler)]
+  runMulti [("c11-reporter", run OtelVerif.Drivers.C11.repHandler), ("c11-shared", run OtelVerif.Drivers.C11.sharedHandler),
+    ("c11-life", run OtelVerif.Drivers.C11.lifeHandler)]
